@@ -337,7 +337,7 @@ def match_party(gs, party, used):
             continue
         fr = [f[len(RAIN):] for f in g["frames"] if f.startswith(RAIN)]
         if k == "WL" and m == "mTorrents":
-            ok = any(f.startswith(("torrent.(*Session).insertTorrent", "torrent.(*Session).removeTorrentFromClient", "torrent.(*Session).Close")) for f in fr)
+            ok = any(f.startswith("torrent.(*Session).") for f in fr)     # any registry writer: insertTorrent, removeTorrentFromClient, Close, add ...
         else:
             pat = root_pat(op)
             ok = any(f == pat or f.startswith(pat + ".") for f in fr)
